@@ -33,7 +33,9 @@ def _gain(k):
 
 
 def _tol(g):
-    return 1e-10 * max(1.0, g)
+    # rounding amplified by the gain g = prod 1/(1-|k|^2) of the parameter set; 1.09e-10 g is the largest error seen on
+    # the unchanged tree in ~2e6 sets (order 16, g = 7e4)
+    return 3e-10 * max(1.0, g)
 
 
 def _vec(v):
